@@ -308,7 +308,15 @@ fn updates_at_full_pool(rep: &mut Report, b: &mut Bench, mode: &str) {
         return;
     }
     let r = b.step("update of the last reference to a new string at the pool limit", false, upd("zr2", "brand new 2"));
-    expect(rep, "pool-65535", mode, "update last reference -> new string (slot is released first)", r, Some(Outcome::Ok));
+    if !expect(rep, "pool-65535", mode, "update last reference -> new string (slot is released first)", r, Some(Outcome::Ok)) {
+        return;
+    }
+    // the same column assigned twice in one update: the first new string is released again before the second is interned
+    let twice = |p: &mut Pkg| {
+        p.update_rows(msi::Update::table("S").set("V", msi::Value::from("brand new 3")).set("V", msi::Value::from("brand new 4")).with(msi::Expr::col("K").eq(msi::Expr::string("zr2"))))
+    };
+    let r = b.step("update assigning a column twice (two new strings, one at a time) at the pool limit", false, twice);
+    expect(rep, "pool-65535", mode, "update last reference -> new string, assigned twice", r, Some(Outcome::Ok));
 }
 
 /// 65,535 pool entries with two-byte references.
